@@ -344,7 +344,7 @@ def judge(before, geo, connections=True, stats=None):
         lv = lib_volume(geo)
         if not close(lv, vol):
             out.append(('library-volume', "sum of the library's block volumes = %r but the reference volume is %r"
-                        % (lv, float(vol))))
+                        % (float(lv), float(vol))))
     except Exception as e:
         out.append(('library-volume-raises', 'block_volume over the block list raised %s' % type(e).__name__))
     # tiling
@@ -591,8 +591,22 @@ SITE = {'refine': 'refine', 'refine_all': 'refine', 'split': 'split_column', 'de
 def run_case(case):
     """Executes one configuration.  Returns (violations [(sig, what)], nontrivial, outcome, stats)."""
     kind = case['op']
-    site = SITE[kind]
     stats = {}
+    if kind == 'build':
+        # a base geometry that is itself produced by refine() / decompose_columns()
+        _cache.pop(case['geo'], None)
+        try:
+            with quiet(), core.timelimit(300):
+                base(case['geo'])
+        except core.HarnessError:
+            raise
+        except Exception as e:
+            site = 'decompose_columns' if 'decomposed' in case['geo'] else 'refine'
+            return [('%s|%s|raises-%s|building %s' % (ID, site, type(e).__name__, case['geo']),
+                     'building the base geometry %s raised %s: %s' % (case['geo'], type(e).__name__, str(e)[:200]))], \
+                True, 'build-raised', stats
+        return [], False, 'build-ok', stats
+    site = SITE[kind]
     if kind in ('decompose', 'triangulate'):
         geo, cname = geo_polygon(case['base'], case['mids'], case['rot'])
         klass = '%s+%dmid' % (case['base'], len(case['mids']))
@@ -607,6 +621,9 @@ def run_case(case):
             if kind == 'refine':
                 cols = canon_cols(geo)
                 names = [cols[i].name for i in case['region']]
+                shapes = sorted(set(len(cols[i].node) for i in case['region']))
+                klass = 'bisect=%s,edge=%s,%s' % (case['bisect'], 'yes' if case.get('edge') else 'no',
+                                                 '+'.join({3: 'tri', 4: 'quad'}.get(s, str(s)) for s in shapes))
                 edge = []
                 if case.get('edge'):
                     edge = transition_columns(case, before)
@@ -615,17 +632,14 @@ def run_case(case):
                         return [], False, 'refine:no-transition-columns', stats
                     edge = [cols[i].name for i in edge]
                 geo.refine(names, bisect=case['bisect'], bisect_edge_columns=edge)
-                shapes = sorted(set(len(cols[i].node) for i in case['region']))
-                klass = 'bisect=%s,edge=%s,%s' % (case['bisect'], 'yes' if edge else 'no',
-                                                 '+'.join({3: 'tri', 4: 'quad'}.get(s, str(s)) for s in shapes))
             elif kind == 'refine_all':
-                geo.refine(bisect=case['bisect'])
                 klass = 'bisect=%s,default-argument' % (case['bisect'],)
+                geo.refine(bisect=case['bisect'])
             elif kind == 'split':
                 cols = canon_cols(geo)
                 nodes = canon_nodes(geo)
-                ok = geo.split_column(cols[case['column']].name, nodes[case['node']].name)
                 klass = 'quad'
+                ok = geo.split_column(cols[case['column']].name, nodes[case['node']].name)
                 if ok is not True:
                     return [('%s|split_column|returns-%r|quad' % (ID, ok),
                              'split_column of a quadrilateral at one of its nodes returned %r' % (ok,))], True, 'refused', stats
@@ -639,8 +653,8 @@ def run_case(case):
                 connections = False
             elif kind == 'refine_layers':
                 names = [geo.layerlist[i].name for i in case['layers']]
-                geo.refine_layers(names, factor=case['factor'])
                 klass = 'factor=%d' % case['factor']
+                geo.refine_layers(names, factor=case['factor'])
             else:
                 raise core.HarnessError('unknown op %r' % kind)
     except core.CaseTimeout:
@@ -692,7 +706,7 @@ def judge_layers(before, geo, case):
                     v += bv or 0.0
             key = tuple(sorted(G.poly([n.pos for n in col.node])))
             if key in before.colvol and not close(v, before.colvol[key]):
-                out.append(('column-volume', 'rock volume of a column %r -> %r' % (float(before.colvol[key]), v)))
+                out.append(('column-volume', 'rock volume of a column %r -> %r' % (float(before.colvol[key]), float(v))))
                 break
     except Exception as e:
         out.append(('column-volume-raises', 'block_volume raised %s' % type(e).__name__))
@@ -761,27 +775,43 @@ def layer_cases(gname):
 
 def all_cases(tier):
     cases = []
-    cases += refine_cases('r3x3', 'all')
-    cases += refine_cases('t8', 'all')
-    cases += refine_cases('mixed6', 'all')
-    cases += split_cases('r3x3') + split_cases('mixed6')
+
+    def family(fn, gname, *args, **kw):
+        """The cases of one family; when the base geometry itself cannot be built (it is made with the
+        methods under test) that is one violating case, not a failure of the harness."""
+        try:
+            with quiet():
+                cases.extend(fn(gname, *args, **kw))
+        except core.HarnessError:
+            raise
+        except Exception:
+            cases.append({'op': 'build', 'geo': gname})
+
+    family(refine_cases, 'r3x3', 'all')
+    family(refine_cases, 't8', 'all')
+    family(refine_cases, 'mixed6', 'all')
+    family(split_cases, 'r3x3')
+    family(split_cases, 'mixed6')
     for bname, E, r in polygon_cases():
         for op in ('decompose', 'triangulate'):
             cases.append({'op': op, 'base': bname, 'mids': E, 'rot': r})
-    cases += layer_cases('r3x3') + layer_cases('r4x3') + layer_cases('t8')
+    family(layer_cases, 'r3x3')
+    family(layer_cases, 'r4x3')
+    family(layer_cases, 't8')
     if tier == 'quick':
-        cases += refine_cases('r3x3+refined', 'sample')
-        cases += refine_cases('g7', 'sample', bisects=[False, True])
-        cases += refine_cases('mixed6+decomposed', 'families')
+        family(refine_cases, 'r3x3+refined', 'sample')
+        family(refine_cases, 'g7', 'sample', bisects=[False, True])
+        family(refine_cases, 'mixed6+decomposed', 'families')
     else:
-        cases += refine_cases('r4x3', 'all')
-        cases += refine_cases('mixed6+decomposed', 'all')
-        cases += refine_cases('r3x3+refined', 'families')
-        cases += refine_cases('r4x3+refined', 'families')
-        cases += refine_cases('t8+refined', 'families')
-        cases += refine_cases('g7', 'families')
-        cases += refine_cases('g7+refined', 'sample', bisects=[False, True])
-        cases += split_cases('r4x3') + split_cases('g7')
+        family(refine_cases, 'r4x3', 'all')
+        family(refine_cases, 'mixed6+decomposed', 'all')
+        family(refine_cases, 'r3x3+refined', 'families')
+        family(refine_cases, 'r4x3+refined', 'families')
+        family(refine_cases, 't8+refined', 'families')
+        family(refine_cases, 'g7', 'families')
+        family(refine_cases, 'g7+refined', 'sample', bisects=[False, True])
+        family(split_cases, 'r4x3')
+        family(split_cases, 'g7')
     return cases
 
 
